@@ -282,9 +282,14 @@ def render(tag: bytes, parts: list[Any], kinds: list[str],
             elif k == 'quoted':
                 cur += quote(v)
             elif k == 'nonsync':
-                cur += b'{%d+}' % len(v) + nl + v
+                # number = 1*DIGIT: leading zeros are legal, any amount
+                z = b'0' * (rng.choice([0, 0, 0, 1, 3, 19, 20, 25])
+                            if rng is not None else 0)
+                cur += b'{%s%d+}' % (z, len(v)) + nl + v
             else:
-                cur += b'{%d}' % len(v) + nl
+                z = b'0' * (rng.choice([0, 0, 0, 1, 3, 19, 20, 25])
+                            if rng is not None else 0)
+                cur += b'{%s%d}' % (z, len(v)) + nl
                 segs.append(bytes(cur))
                 cur = bytearray(v)
     if space == 'trailing':
